@@ -5,6 +5,7 @@ import (
 	"encoding/binary"
 	"errors"
 	"fmt"
+	"github.com/mgtv-tech/redis-GunYu/pkg/verifhook"
 	"io"
 	"os"
 	"sync"
@@ -284,6 +285,7 @@ func (r *AofRotateReader) read(buf []byte) (n int, err error) {
 	n, err = r.file.Read(buf)
 
 	for err == io.EOF && !r.wait.IsClosed() {
+		verifhook.Point("store.reader", "eof", r.filepath)
 		// new aof?
 		if r.left != r.aof.lastSeg() {
 			r.tryReadNextFile(r.right)
